@@ -239,6 +239,7 @@ def fjsp_rollout(torch, env, td0, rng, plans, policies, extra_pad, max_steps=400
     if out["crash"] is None:
         try:
             rew = env.get_reward(td, None)
+            out["rewards_raw"] = [float(x) for x in rew.reshape(-1).tolist()]
             out["rewards"] = [F._ints(rew[b])[0] for b in range(B)]
             fin = []
             for b in range(B):
@@ -247,7 +248,7 @@ def fjsp_rollout(torch, env, td0, rng, plans, policies, extra_pad, max_steps=400
                 fin.append({"start": F._ints(td["start_times"][b]), "finish": F._ints(td["finish_times"][b]),
                             "assign": [[bool(x) for x in a[m * N:(m + 1) * N]] for m in range(M)], "reward": out["rewards"][b]})
             out["finals"] = fin
-        except F.NotIntegral:
+        except (F.NotIntegral, OverflowError, ValueError):      # non-integral / infinite / nan reward: no exact comparison possible
             out["rewards"] = None
         except Exception as e:  # noqa: BLE001
             out["crash"] = {"where": "get_reward", "error": repr(e)[:300]}
